@@ -2395,7 +2395,9 @@ pub fn node_partial_diverge(prog: &Program, e: &Expr) -> bool {
         EK::Method(r, _, args) => args.iter().any(diverges_inside) && (expr_heapy(prog, e) || expr_heapy(prog, r)),
         EK::RecLit(_, fs) => fs.iter().any(|(_, a)| diverges_inside(a)) && expr_heapy(prog, e),
         EK::Bin(_, a, b) => diverges_inside(b) && expr_heapy(prog, a),
-        EK::FStr(ps) => ps.iter().any(|p| matches!(p, FPart::Expr(a) if diverges_inside(a))),
+        // (an f-string with a diverging part is NOT in the class: on the unchanged tree the text
+        // accumulated so far is released on the early exit; a diverging sub-expression inside a
+        // call / literal within a part is matched at that node)
         EK::Assign(_, v) | EK::CompAssign(_, _, v) => diverges_inside(v) && expr_heapy(prog, v),
         _ => false,
     }
